@@ -5,10 +5,12 @@ import (
 	"github.com/cedar-policy/cedar-go/x/exp/eval"
 )
 
-// OrderSensitive reports whether evaluating n in env may depend on Go map iteration order: some record
-// literal in n has two entries that both fail, with different outcomes (the C14 finding
-// `record-literal-multi-error-order`: recordLiteralEval ranges over a map and reports whichever
-// erroring entry it meets first).  Such cases have no single implementation result to compare.
+// OrderSensitive reports whether some record literal in n has two entries that both fail, with different
+// outcomes.  Until `fix: evaluate the entries of a record literal in key order` recordLiteralEval ranged over
+// a Go map and reported whichever erroring entry it met first; C01/C04 stepped around such cases.  They do
+// not any more: this is now only the CLASSIFIER of a repeated-evaluation instability (if the implementation
+// ever gives two results for one input again, an instability on such a literal is reported as
+// `record-literal-multi-error-order`, anything else as `impl-nondeterministic`).
 func OrderSensitive(n ast.IsNode, env eval.Env) bool {
 	found := false
 	var walk func(x ast.IsNode)
